@@ -30,8 +30,8 @@ BUDGET = {
 S = gen.S
 LOOP = {
     'steps': [
-        S([['ctx', 'i', 0], ['out', 'start', 1]], ['continue', 1, [0], {'k': 'v'}]),
-        S([['ctxinc', 'i'], ['out', 'ns.last', 5]], ['branch', 'i', {'1': ['continue', 1, [1], {}], '2': ['wait', 1, 'again', {'d': 1}]}, ['continue', 2, ['done'], {'z': None}]]),
+        S([['ctx', 'i', 0], ['ctx', 'jobs', [[1], [2]]], ['ctxalias', 'current', 'jobs'], ['out', 'start', 1]], ['continue', 1, [0], {'k': 'v'}]),
+        S([['ctxinc', 'i'], ['ctxappend', 'current', 'x'], ['out', 'ns.last', 5]], ['branch', 'i', {'1': ['continue', 1, [1], {}], '2': ['wait', 1, 'again', {'d': 1}]}, ['continue', 2, ['done'], {'z': None}]]),
         S([['yield'], ['ctxinc', 'j']], ['branch', 'j', {'1': ['wait', 2, None, None]}, ['value', 'end']], True),
     ]
 }
@@ -48,6 +48,7 @@ TICKET = {
     'spec': {'inputs': pm.ns({'n': pm.port(required=False, default=['counter', 100])})},
     'inputs': {},
 }
+CODEC_LOOP = dict(LOOP, codec=True)
 WC_CASES = [
     {'outline': [['step', 'a'], ['while', 'p', [['step', 'b'], ['if', [['q', [['step', 'c']]]], [['step', 'd']]]]], ['step', 'a']],
      'behaviour': {'rets': {}, 'preds': {'p': [True, True, True, False], 'q': [True, False, True]}, 'bodies': {'b': [['out', 'o.b', 1]], 'c': [['ctx', 'seen', [1, 2]]]}}},
@@ -60,7 +61,7 @@ MEDIA = ('pickle', 'copy', 'yaml')
 
 
 def _n_entries(base):
-    ref = restore.run_reference(_run_case(base), medium='pickle', resumes=base.get('resumes'))
+    ref = restore.run_reference(_run_case(base), medium='pickle', resumes=base.get('resumes'), midstep=True)
     return len([c for c in ref.get('checkpoints', []) if c['state'] not in ('finished', 'excepted', 'killed')])
 
 
@@ -72,7 +73,7 @@ def _run_case(case):
 
 def enumerate_cases(tier, scope):
     kmax = int(scope[3])
-    bases = [{'program': LOOP}, {'program': LOOP_FAIL}, {'program': gen.CATALOGUE['waitwait']}, {'program': gen.CATALOGUE['chain']}, {'program': TICKET}] + WC_CASES
+    bases = [{'program': LOOP}, {'program': LOOP_FAIL}, {'program': gen.CATALOGUE['waitwait']}, {'program': gen.CATALOGUE['chain']}, {'program': TICKET}, {'program': CODEC_LOOP}] + WC_CASES
     for base in bases:
         n = _n_entries(base)
         for k in range(1, kmax + 1):
@@ -90,6 +91,10 @@ def _loop_program(draw):
     for idx in range(n):
         is_async = draw(st.booleans())
         body = [['ctxinc', f'c{idx}']]
+        if idx == 0:
+            body += [['ctx', 'shared', [[0]]], ['ctxalias', 'alias', 'shared']]
+        elif draw(st.booleans()):
+            body.append(['ctxappend', draw(st.sampled_from(['alias', 'shared'])), idx])
         if draw(st.booleans()):
             body.append(['out', draw(st.sampled_from(['x', 'ns.y'])), draw(st.integers(0, 3))])
         if is_async and draw(st.booleans()):
@@ -119,6 +124,8 @@ def _cases(draw, tier):
         case = {'outline': base['outline'], 'behaviour': base['behaviour']}
     else:
         case = {'program': draw(_loop_program())}
+        if draw(st.integers(0, 3)) == 0:
+            case['program']['codec'] = True
     case['picks'] = draw(st.lists(st.integers(0, 40), min_size=1, max_size=3))
     case['medium'] = draw(st.sampled_from(['pickle', 'pickle', 'copy', 'yaml']))
     return case
@@ -139,7 +146,7 @@ def execute(case):
     medium = case.get('medium', 'pickle')
     run_case = _run_case(case)
     resumes = case.get('resumes')
-    ref = restore.run_reference(run_case, medium=medium, resumes=resumes)
+    ref = restore.run_reference(run_case, medium=medium, resumes=resumes, midstep=True)
     if 'construct_error' in ref:
         return {'violations': [{'clause': 'construct', 'detail': repr(ref['construct_error'])}], 'nontrivial': False, 'classes': []}
     live = [c for c in ref['checkpoints'] if c['state'] not in ('finished', 'excepted', 'killed')]
@@ -169,7 +176,7 @@ def execute(case):
     run = None
     for step_no, point in enumerate(crash):
         nxt = crash[step_no + 1] if step_no + 1 < len(crash) else None
-        run = restore.run_from(run_case, current, medium, resumes=resumes, capture=nxt is not None)
+        run = restore.run_from(run_case, current, medium, resumes=resumes, capture=nxt is not None, midstep=True)
         if 'load_error' in run:
             v('load-failed', f"restore #{step_no + 1} at state entry {point} ({current['state']}): {run['load_error']!r}")
             break
@@ -201,6 +208,8 @@ def execute(case):
     inside = _inside_control_flow(case, ref, live, crash)
     if len(crash) >= 2:
         classes.append('chained')
+    if any(live[c]['why'].startswith('midstep') for c in crash):
+        classes.append('crash-inside-step')
     if inside:
         classes.append('crash-in-loop-or-branch')
     classes.append('wc' if 'outline' in case else 'proc')
